@@ -17,6 +17,46 @@ CLAIMED = {
              "linearity of the probed executions is established by C07's op-level acceptor; pywt pins Ref.",
         technique="TLA+ symbolic-operator model (Impl = Ref) checked by TLC + spec->code operator replay + code->spec trace validation",
         design="9/C01"),
+    "C02": dict(
+        text="TLC proves, for every (mode, N, L) in the bounds, that synthesis o analysis - of the PyWavelets definition and "
+             "of the stage model of the code - is formally perfect-reconstructing (class-complete tap-pair operator, "
+             "spec/DWT1Laws.tla): identity on the signal's extent for every PR filter bank of that length; the call "
+             "machines give N or N+1 output samples. The real modules are then driven through exact integer round trips "
+             "(dyadic biorthogonal banks, all modes/sizes/J, 1-D and 2-D) and numeric round trips for real wavelets with a "
+             "bound derived from the filters' gains and the measured PR residual of the table (dmey: PyWavelets' own error).",
+        note="Formal PR within the PR bounds of the model; the tap-value premise is numeric, checked per wavelet.",
+        technique="TLA+ formal-PR law over symbolic tap-pair operators (TLC) + exact integer and numeric round-trip replay",
+        design="9/C02"),
+    "C05": dict(
+        text="TLC checks that the stage models of the hand-written backward passes equal the transposes of the forward "
+             "stage models as symbolic operators for every (mode, N, L), and that for every subset of leaves requiring "
+             "grad every such leaf receives a gradient (call machines, AFB2D crop logic). Real VJP operators (identity "
+             "cotangent batches through torch.autograd.grad) are compared exactly with the transpose of the forward "
+             "operator extracted from the same module: one level (indicator taps), multi-level and 2-D (integer taps), "
+             "all 2^(J+1)-1 subsets. Deviations that equal the spec's model of the coded backward in the listed regions "
+             "are reported as KNOWN-FINDING (F2, F3); anything else is a violation.",
+        note="Linearity (C07) turns 'all cotangents and inputs' into one operator; bounded sizes; CPU only.",
+        technique="TLA+ adjointness law (Backward = Transpose(Forward)) + grad-subset state machine (TLC) + exact VJP operator replay",
+        design="9/C05"),
+    "C10": dict(
+        text="TLC checks the stage model of sfb1d against pywt.idwt on free coefficient vectors for every forward-"
+             "compatible length, and the inverse call machines (unpad rule, None -> zeros incl. dtype; never raises, "
+             "covers the signal's extent). Identity batches over every coefficient of the pyramid are pushed through "
+             "DWT1DInverse/DWTInverse with integer taps and compared exactly with the composed Ref operators; None "
+             "levels are compared on the signal's extent under both readings of 'zeros'; random (non-image) pyramids "
+             "with real wavelets are compared with pywt.waverec/waverec2.",
+        note="Bounded sizes; pywt.idwt pins Ref; two readings of None are admitted where PyWavelets itself is ambiguous.",
+        technique="TLA+ symbolic-operator model (Impl = Ref) + inverse call state machine (TLC) + spec->code pyramid replay",
+        design="9/C10"),
+    "C17": dict(
+        text="TLC proves in the admissible region that the Gram operator of the analysis model is diagonal-uniform with "
+             "the zero-lag class on the diagonal only (formal orthogonality for every orthonormal pair), that synthesis "
+             "is the reversed-tap transpose and that the backward is the transpose. The real one-level operators are "
+             "checked exactly against these structures and, for every orthogonal PyWavelets wavelet, T T^T, T^T T, "
+             "inverse = T^T, backward = inverse, energy and inner products are checked numerically (1-D J<=3, 2-D).",
+        note="The orthonormality premise of the taps is checked numerically per wavelet; bounds in coverage.",
+        technique="TLA+ formal orthogonality law over symbolic Gram operators (TLC) + exact and numeric operator replay",
+        design="9/C17"),
 }
 
 NOT_YET = "not yet built at this commit (work in progress; see DESIGN.md section 14 for the build order)"
